@@ -554,4 +554,37 @@ Definition fetch_run (fuel : nat) (offset hwm : Z) (i : list N) (remain : Z) (la
   : option (list msg * err * Z) :=
   batch_run fuel (new_batch offset hwm i remain late) [].
 
+(* the same run, keeping the batch it ends in, then Batch.Close: messages, the error of the last
+   ReadMessage, Conn.offset after Close, what Close returns (io.EOF is not reported), whether the
+   library closes the connection *)
+Fixpoint batch_run_b (fuel : nat) (b : batch) (acc : list msg) {struct fuel}
+  : option (list msg * err * batch) :=
+  match fuel with
+  | O => Some (rev acc, EFuel, b)
+  | S fuel' =>
+    match batch_read (S fuel') b with
+    | BPanic => None
+    | BErr e b' => Some (rev acc, e, b')
+    | BMsg g b' => batch_run_b fuel' b' (g :: acc)
+    end
+  end.
+
+Definition batch_close_err (b : batch) : option err :=
+  let derr := match b_msgs b with Some m => msr_discard m | None => None end in
+  match derr, b_err b with
+  | Some _, None => Some EIO
+  | Some _, Some EEOF => Some EIO
+  | _, Some EEOF => None
+  | _, e0 => e0
+  end.
+
+Definition fetch_close (fuel : nat) (offset hwm : Z) (i : list N) (remain : Z) (late : bool)
+  : option (list msg * err * Z * option err * bool) :=
+  match batch_run_b fuel (new_batch offset hwm i remain late) [] with
+  | None => None
+  | Some (ms, e, b) =>
+    let '(off, closed) := batch_close b in
+    Some (ms, e, off, batch_close_err b, closed)
+  end.
+
 End Decomp.
